@@ -32,14 +32,14 @@ Section SP.
   Qed.
 
   Lemma sp_good : forall items tail fuel,
-    wf_items p0 p1 items -> filler_ok p0 tail = true -> (length (stream_of items tail) < fuel)%nat ->
+    forallb (wf_item p0 p1) items = true -> filler_ok p0 tail = true -> (length (stream_of items tail) < fuel)%nat ->
     stream_parse_fuel fuel p0 (stream_of items tail) = map snd items.
   Proof.
     induction items as [| [f m] items IH]; intros tail fuel Hi Ht Hl.
     - unfold stream_of in *. cbn [flat_map app] in *.
       rewrite <- (app_nil_r tail), sp_filler by (auto; lia). apply sp_nil.
     - rewrite (stream_of_cons f m items tail) in *.
-      unfold wf_items in Hi. cbn [forallb] in Hi.
+      cbn [forallb] in Hi.
       apply andb_true_iff in Hi. destruct Hi as [Hfm Hi]. unfold wf_item in Hfm. cbn [fst snd] in Hfm.
       apply andb_true_iff in Hfm. destruct Hfm as [Hf Hm].
       destruct (wf_msg_inv p0 p1 m Hm) as (Hm8 & Hm32 & [t Hmt] & Hps).
